@@ -259,11 +259,17 @@ MEDDLY::saturation_set_mtrel<EOP, ATYPE>
     fire_ct = new ct_entry_type("satfire");
     sat_ct  = new ct_entry_type("saturate");
 
+    //
+    // A fired result is saturated using all events at or below its level,
+    // so the "fire" key also holds the relation with top level <= L of the
+    // current split; otherwise entries computed for one relation are
+    // returned for another relation that shares a sub-relation.
+    //
     if (store_levels) {
-        fire_ct->setFixed('I', resF, arg2F);
+        fire_ct->setFixed('I', resF, arg2F, arg2F);
         sat_ct->setFixed('I', resF, arg2F);
     } else {
-        fire_ct->setFixed(resF, arg2F);
+        fire_ct->setFixed(resF, arg2F, arg2F);
         sat_ct->setFixed(resF, arg2F);
     }
 
@@ -654,9 +660,11 @@ void MEDDLY::saturation_set_mtrel<EOP, ATYPE>::recFire(int L,
         key[0].setI(L);
         key[1].setN(A);
         key[2].setN(B);
+        key[3].setN(top_at_or_below[Clevel].getNode());
     } else {
         key[0].setN(A);
         key[1].setN(B);
+        key[2].setN(top_at_or_below[Clevel].getNode());
     }
 
     if (fire_ct->findCT(key, res)) {
